@@ -42,7 +42,10 @@ class DominanceInfo:
         for b in blocks:
             self._dominance[b] = set(region.blocks)
 
-        # Iteratively filter out dominators until it converges
+        # Iteratively filter out dominators until it converges.
+        # A non-entry block without predecessors is unreachable: it is (vacuously)
+        # dominated by every block, so that it does not remove dominators from its
+        # successors.
         changed = True
         while changed:
             changed = False
@@ -51,7 +54,7 @@ class DominanceInfo:
                 self._dominance[b] = {b} | (
                     set[Block].intersection(*(self._dominance[p] for p in pred[b]))
                     if pred[b]
-                    else set()
+                    else set(region.blocks)
                 )
                 if old != self._dominance[b]:
                     changed = True
